@@ -309,6 +309,14 @@ Definition valid_ctx_tuple (w : rtuple) : bool := accepted (validate_tuple w).
 
 End Coded.
 
+(* a validator session: the tuples are validated one after the other (one typesystem instance,
+   one Write request, one list of contextual tuples); the model has no state to carry along *)
+Definition validate_seq (e : env) (m : model) (cds : cdefs) (limit : N) (ws : list rtuple) : list bool :=
+  map (valid_for_write e m cds limit) ws.
+
+Definition validate_ctx_seq (e : env) (m : model) (cds : cdefs) (ws : list rtuple) : list bool :=
+  map (valid_ctx_tuple e m cds) ws.
+
 (* ------------------------------------------------------------------------------------------ *)
 (* The Write command over a simple store: order of operations                                  *)
 
